@@ -46,10 +46,24 @@ int main(void) {
 				vc.signature = sig;
 				if (strcmp(tok[3], "-")) { hraw = hx_dec(tok[3], &hl); if (KSI_DataHash_fromImprint(ctx, hraw, hl, &doc) != KSI_OK) { printf(" dochash-invalid\n"); goto next; } vc.documentHash = doc; }
 				if (strcmp(tok[4], "-")) vc.docAggrLevel = strtoull(tok[4], NULL, 10);
-				rc = KSI_SignatureVerifier_verify(policy_by_name(tok[1]), &vc, &result);
-				printf(" rc=%d", rc);
-				if (rc == KSI_OK && result != NULL) printf(" res=%d err=%s", result->finalResult.resultCode, KSI_VerificationErrorCode_toString(result->finalResult.errorCode));
-				else printf(" res=- err=-");
+				{ /* entry point: <policy>[@args|@wpctx|@parse]: KSI_Signature_verifyWithPolicy with hash and level as arguments / in a caller's context,
+				     KSI_Signature_parseWithPolicy with a caller's context.  These report only success or KSI_VERIFICATION_FAILURE: res=9 = "not OK". */
+				  char *via = strchr(tok[1], '@'); if (via) *via++ = 0;
+				  if (via == NULL) {
+					rc = KSI_SignatureVerifier_verify(policy_by_name(tok[1]), &vc, &result);
+					printf(" rc=%d", rc);
+					if (rc == KSI_OK && result != NULL) printf(" res=%d err=%s", result->finalResult.resultCode, KSI_VerificationErrorCode_toString(result->finalResult.errorCode));
+					else printf(" res=- err=-");
+				  } else {
+					KSI_VerificationContext uc; KSI_Signature *s2 = NULL;
+					KSI_VerificationContext_init(&uc, ctx); uc.documentHash = doc; uc.docAggrLevel = vc.docAggrLevel;
+					if (!strcmp(via, "args")) rc = KSI_Signature_verifyWithPolicy(sig, doc, vc.docAggrLevel, policy_by_name(tok[1]), NULL);
+					else if (!strcmp(via, "wpctx")) rc = KSI_Signature_verifyWithPolicy(sig, NULL, 0, policy_by_name(tok[1]), &uc);
+					else rc = KSI_Signature_parseWithPolicy(ctx, raw, len, policy_by_name(tok[1]), &uc, &s2);
+					KSI_Signature_free(s2);
+					if (rc == KSI_OK) printf(" rc=0 res=0 err=-"); else if (rc == KSI_VERIFICATION_FAILURE) printf(" rc=0 res=9 err=-"); else printf(" rc=%d res=- err=-", rc);
+				  }
+				}
 				if (KSI_Signature_serialize(sig, &ser, &serlen) == KSI_OK) printf(" ser=%s", (serlen == len && memcmp(ser, raw, len) == 0) ? "same" : "diff"); else printf(" ser=-");
 				KSI_free(ser);
 				KSI_VerificationContext_clean(&vc);
